@@ -46,6 +46,9 @@ def numLabels : DName → Nat
   | n => n.length
 end DName
 
+/-- `Name::zone_of` on lower-case names: `z` is a suffix of `n` -/
+def zoneOf (z n : DName) : Bool := z.length ≤ n.length && n.drop (n.length - z.length) == z
+
 inductive Proof where
   | secure | insecure | bogus | indet
   deriving DecidableEq, Repr, Inhabited
@@ -313,7 +316,9 @@ def scanKeys (env : Env) (gid : GroupId) (sig : Rec) : List Rec → Option Bool 
 
 def verifyRrsigWithKeys (env : Env) (gid : GroupId) (m : Msg) (sig : Rec) : Option Proof :=
   if (gid.rtype == tNSEC || gid.rtype == tNSEC3) && gid.name.numLabels != sig.labels then none
-  else scanKeys env gid sig (capKeys (m.an.filter (·.rtype == tDNSKEY)) []) none
+  else
+    -- only DNSKEYs owned by the signer are looked at (fix 207ce2a)
+    scanKeys env gid sig (capKeys (m.an.filter fun k => k.rtype == tDNSKEY && k.name == sig.signer) []) none
 
 /-! ## `verify_default_rrset` -/
 
@@ -329,9 +334,12 @@ def selectOk (env : Env) (sub : Query → Res) (gid : GroupId) : List (Rec × Na
       | none => .done .bogus none
     | _ => selectOk env sub gid rest
 
-def sigCands (q : Query) (sigs : List Rec) : List (Rec × Nat) :=
+/-- the RRSIGs that are tried: the signer must be the owner or an ancestor of the owner (fix 207ce2a), the RRSIG
+cap, the cycle break -/
+def sigCands (q : Query) (owner : DName) (sigs : List Rec) : List (Rec × Nat) :=
   sigs.zipIdx.filter fun si =>
-    si.2 ≤ Generated.MAX_RRSIGS_PER_RRSET && !(si.1.signer == q.name && q.qtype == tDNSKEY)
+    zoneOf si.1.signer owner &&
+      (si.2 ≤ Generated.MAX_RRSIGS_PER_RRSET && !(si.1.signer == q.name && q.qtype == tDNSKEY))
 
 def verifyDefaultRrset (env : Env) (sub : Query → Res) (q : Query) (gid : GroupId) (sigs : List Rec) : GV :=
   if sigs.isEmpty then
@@ -343,7 +351,7 @@ def verifyDefaultRrset (env : Env) (sub : Query → Res) (q : Query) (gid : Grou
       | .ok => .done .bogus none
     else .done .bogus none
   else
-    selectOk env sub gid (sigCands q sigs)
+    selectOk env sub gid (sigCands q gid.name sigs)
 
 /-! ## `verify_rrsets` + `update_rrset` -/
 
@@ -409,6 +417,10 @@ def answersTheQuestion (q : Query) (an : List Rec) : Bool :=
   an.any fun r => r.name == q.name &&
     (r.rtype == q.qtype || r.rtype == 5 || (q.qtype == 255 && r.rtype != tRRSIG))
 
+/-- a record of the query name and type in the answer section -/
+def plainAnswer (q : Query) (an : List Rec) : Bool :=
+  an.any fun r => r.name == q.name && r.rtype == q.qtype
+
 def verifyMsg (env : Env) (sub : Query → Res) (d : Nat) (q : Query) (qid : Nat) (m : Msg) : Res :=
   let va := verdicts env sub d q qid 0 m.an
   let vn := verdicts env sub d q qid 1 m.ns
@@ -430,6 +442,9 @@ def verifyMsg (env : Env) (sub : Query → Res) (d : Nat) (q : Query) (qid : Nat
     match early with
     | some r => r
     | none =>
+      -- a plain positive NOERROR answer (an RRset of the query name and type, no wildcard expansion) asserts no
+      -- non-existence: denial records attached to it are not evaluated (fix a0f75fc)
+      if !mustValidateNsec m.an va && m'.rcode == 0 && plainAnswer q m'.an then .ok m' else
       let nsec3s := selectDenial m'.ns tNSEC3
       let nsecs := selectDenial m'.ns tNSEC
       let ansMask := maskOf (m'.an.zipIdx.filter fun ri => ri.1.isSig && ri.1.proof == .secure)
@@ -479,9 +494,6 @@ def summaryGo : List Rec → Option Bool → Summary
     | _ => summaryGo rest (some false)
 
 def summary (rs : List Rec) : Summary := summaryGo rs none
-
-/-- `Name::zone_of` on lower-case names: `z` is a suffix of `n` -/
-def zoneOf (z n : DName) : Bool := z.length ≤ n.length && n.drop (n.length - z.length) == z
 
 /-- `DnsResponse::contains_answer` -/
 def containsAnswer (q : Query) (m : Msg) : Bool :=
@@ -548,16 +560,6 @@ def anchorKeyForeignOwner (env : Env) (trace : List (Query × UpOut)) : Bool :=
   trace.any fun e =>
     match e.2 with
     | .ok m | .noRecords m => m.all.any fun r => r.rtype == tDNSKEY && env.anchor r.rid && !r.name.isRoot
-    | _ => false
-
-/-- `C07.ForeignSignerInheritsInsecure` (open): an RRSIG whose signer is neither its owner nor an ancestor of its
-owner, or a DNSKEY answer holding a DNSKEY of another owner than the queried one -/
-def foreignSigner (trace : List (Query × UpOut)) : Bool :=
-  trace.any fun e =>
-    match e.2 with
-    | .ok m | .noRecords m =>
-      m.all.any (fun s => s.isSig && !zoneOf s.signer s.name) ||
-        (e.1.qtype == tDNSKEY && m.an.any fun k => k.rtype == tDNSKEY && k.name != e.1.name)
     | _ => false
 
 end HickoryVerif.Chain
